@@ -64,6 +64,19 @@ theorem C11_strings_roundtrip_whole (seqs : List (List Char)) (t : Trace) (m : N
     (fun k hk => by rw [hcov k hk, List.range_eq_range']) hin
   exact ⟨strs, h1, by rw [h4, shiftTrace_zero]⟩
 
+/-- The contiguity hypothesis of the string round trips is necessary: gapped strings only show the aligned symbols, so a
+valid trace that skips a position (e.g. the result of `remove_gaps`) is rendered without the skipped symbol and parses
+back as a different trace — the text format cannot express it (witness evaluated by `decide`, replayed on the code). -/
+theorem C11_strings_needs_contiguous :
+    ∃ (seqs : List (List Char)) (t : Trace), Valid 2 t ∧
+      (gappedStrings seqs t).toOption.bind (fun strs => (traceFromStrings strs).toOption) = some [[some 0, some 0], [some 1, some 1]] ∧
+      t = [[some 0, some 0], [some 2, some 1]] := by
+  refine ⟨[['A', 'C', 'G'], ['A', 'G']], [[some 0, some 0], [some 2, some 1]], ?_, by decide, rfl⟩
+  refine ⟨by decide, ?_, by decide⟩
+  intro k hk
+  have : k = 0 ∨ k = 1 := by omega
+  rcases this with rfl | rfl <;> decide
+
 /-- FASTA round trip of the whole alignment (`set_alignment` then `get_alignment` with **any** set `extra` of additional gap
 characters): a trace that covers every sequence completely comes back unchanged together with the sequences, provided no
 symbol is `-` or one of the additional gap characters. -/
@@ -175,6 +188,35 @@ theorem C11_score_spec (M : List (List Int)) (go ge : Int) (terminal : Bool) (se
             isum ((gapRuns ((sliceCols t a b).map (codeOf p.1 p.2))).map (runCost go ge))) :=
   score_spec M go ge terminal seqs t v h
 
+/-- `get_pairwise_sequence_identity` (all modes): an `n × n` matrix; entry `(i, j)` = (number of columns in which rows `i` and
+`j` carry the same code and no gap — counted column by column, length of the mode for that pair): #columns /
+`b − a` with `a < b` for the terminal-gap bounds of the two-row alignment `alignment[:, [i, j]]` (whose meaning is
+`C11_terminal_gaps_spec`) / the shorter of the two sequences.  A length of 0 is *not* an error here (numpy yields nan). -/
+theorem C11_pairwise_identity_spec (seqs : List (List Nat)) (t : Trace) (mode : IdMode) (M : List (List (Nat × Nat)))
+    (h : pairIdentity seqs t mode = .ok M) :
+    M.length = seqs.length ∧ ∀ i j (hi : i < seqs.length) (hj : j < seqs.length),
+      ∃ len, (M[i]?).bind (·[j]?) = some (specPairMatches seqs[i] seqs[j] i j t, len) ∧
+        (match mode with
+          | .all => len = t.length
+          | .notTerminal => ∃ a b, findTerminalGaps 2 (t.map fun c => [(c[i]?).join, (c[j]?).join]) = .ok (a, b) ∧ a < b ∧ len = b - a
+          | .shortest => len = Nat.min (seqs.getD i []).length (seqs.getD j []).length) := by
+  cases mode <;>
+    (obtain ⟨h1, h2⟩ := pairIdentity_spec seqs t _ M h
+     refine ⟨h1, fun i j hi hj => ?_⟩
+     obtain ⟨len, hl, hm⟩ := h2 i j hi hj
+     exact ⟨len, hm, pairLen_spec seqs t _ i j len hl⟩)
+
+/-- the decode step of `get_symbols` against the trace: entry (row `k`, column `c`) is a gap iff the trace entry is a gap and
+otherwise the symbol `alphs[k][seqs[k][j]]` of the trace entry `j` — every row through its own alphabet (combines
+`C11_symbols_rows` with `C11_codes_cols`). -/
+theorem C11_symbols_spec (alphs : List (List Char)) (seqs : List (List Nat)) (t : Trace) (sy : List (List (Option Char)))
+    (h : getSymbols alphs seqs t = .ok sy) :
+    All₂ (fun (p : List Char × (List Nat × Nat)) sr => All₂ (fun c s => DecodesTo p.1 (codeOf p.2.1 p.2.2 c) s) t sr)
+      (alphs.zip seqs.zipIdx) sy :=
+  getSymbols_spec alphs seqs t sy h
+
+example : pairIdentity [[0, 1, 2], [0, 2]] [[some 0, some 0], [some 1, none], [some 2, some 1]] .all
+    = .ok [[(3, 3), (2, 3)], [(2, 3), (2, 3)]] := by decide
 example : findTerminalGaps 2 [[some 0, none], [some 1, none], [some 2, none]] = .ok (3, 0) := by decide
 example : identity [[0, 1, 2], [0, 2]] [[some 0, some 0], [some 1, none], [some 2, some 1]] .notTerminal = .ok (2, 3) := by decide
 example : score [[1, 0], [0, 1]] (-5) (-2) true [[0, 1, 1, 0], [0, 0]] [[some 0, some 0], [some 1, none], [some 2, none], [some 3, some 1]]
@@ -194,39 +236,42 @@ theorem C11_cigar_string (ops : List (Op × Nat)) : parseCigar (printOps ops) = 
 
 /-- Reader ∘ writer = identity on the written trace, for **every** combination of `hard_clip`,
 `distinguish_matches`, `introns` and `include_terminal_gaps`: whenever `write_alignment_to_cigar` accepts a
-pairwise trace with consecutive indices and no double gap (`Follows`), `read_alignment_from_cigar` at the first
+pairwise trace (it refuses double gaps and, since fix b62f18f5, skipped positions), `read_alignment_from_cigar` at the first
 reference position of the written part returns exactly the written part (the trace without terminal segment
 gaps unless they are included); with hard clipping the segment indices are relative to the clipped segment. -/
 theorem C11_cigar_roundtrip (o : WOpts) (refSeq segSeq : List Nat) (t : PTrace) (ops : List (Op × Nat))
-    (hf : ∃ rp sp, Follows rp sp t) (hw : writeOps o refSeq segSeq t = .ok (some ops)) :
+    (hw : writeOps o refSeq segSeq t = .ok (some ops)) :
     ∃ t' a, (if o.itg then .ok t else trimSeg t) = .ok t' ∧ firstSeg t' = some a ∧
       readOps ((firstRef t').getD 0) ops = .ok (if o.hc then shiftSeg a t' else t') :=
-  cigar_roundtrip o refSeq segSeq t ops hf hw
+  cigar_roundtrip o refSeq segSeq t ops hw
 
 /-- the same through the CIGAR *string* -/
 theorem C11_cigar_roundtrip_string (o : WOpts) (refSeq segSeq : List Nat) (t : PTrace) (ops : List (Op × Nat))
-    (hf : ∃ rp sp, Follows rp sp t) (hw : writeOps o refSeq segSeq t = .ok (some ops)) :
+    (hw : writeOps o refSeq segSeq t = .ok (some ops)) :
     ∃ t' a, (if o.itg then .ok t else trimSeg t) = .ok t' ∧ firstSeg t' = some a ∧
       readCigar ((firstRef t').getD 0) (printOps ops) = .ok (if o.hc then shiftSeg a t' else t') := by
-  obtain ⟨t', a, h1, h2, h3⟩ := cigar_roundtrip o refSeq segSeq t ops hf hw
+  obtain ⟨t', a, h1, h2, h3⟩ := cigar_roundtrip o refSeq segSeq t ops hw
   exact ⟨t', a, h1, h2, by simp [readCigar, parse_print, h3]⟩
 
 /-- Which traces the writer accepts: `write_alignment_to_cigar` produces a CIGAR **iff** `acceptB` holds — the written part
 exists (the segment has an aligned base, `trimSeg_ok_iff`) and is non-empty, no column is a double gap, every intron
-is `0 ≤ start < stop` and covers only columns with a segment gap, with `distinguish_matches` all indices are inside
+is `0 ≤ start < stop` and covers only columns with a segment gap, reference and segment positions are consecutive
+(`contigB`), with `distinguish_matches` all indices are inside
 the sequences, and the last aligned segment base lies inside the segment. -/
 theorem C11_cigar_accept (o : WOpts) (refSeq segSeq : List Nat) (t : PTrace) :
     ((∃ ops, writeOps o refSeq segSeq t = .ok (some ops)) ↔ acceptB o refSeq.length segSeq.length t = true) ∧
     ((∃ t', trimSeg t = .ok t') ↔ ∃ c ∈ t, c.2.isSome = true) :=
   ⟨writeOps_accept_iff o refSeq segSeq t, trimSeg_ok_iff t⟩
 
-/-- unconditional round trip: every accepted trace with consecutive indices is written and read back unchanged -/
+/-- unconditional round trip: every accepted trace is written and read back unchanged (no hypothesis besides `acceptB`).
+Before fix b62f18f5 the writer accepted traces with skipped positions (e.g. `remove_gaps` output `[[0,0],[2,1]]` → `2M`),
+for which this statement is false; the witness is replayed as a regression case. -/
 theorem C11_cigar_roundtrip_total (o : WOpts) (refSeq segSeq : List Nat) (t : PTrace)
-    (hf : ∃ rp sp, Follows rp sp t) (ha : acceptB o refSeq.length segSeq.length t = true) :
+    (ha : acceptB o refSeq.length segSeq.length t = true) :
     ∃ ops t' a, writeOps o refSeq segSeq t = .ok (some ops) ∧ written o t = some t' ∧ firstSeg t' = some a ∧
       readCigar ((firstRef t').getD 0) (printOps ops) = .ok (if o.hc then shiftSeg a t' else t') := by
   obtain ⟨ops, hw⟩ := (writeOps_accept_iff o refSeq segSeq t).2 ha
-  obtain ⟨t', a, h1, h2, h3⟩ := cigar_roundtrip o refSeq segSeq t ops hf hw
+  obtain ⟨t', a, h1, h2, h3⟩ := cigar_roundtrip o refSeq segSeq t ops hw
   refine ⟨ops, t', a, hw, ?_, h2, by simp [readCigar, parse_print, h3]⟩
   unfold written
   by_cases hitg : o.itg = true
@@ -236,6 +281,9 @@ theorem C11_cigar_roundtrip_total (o : WOpts) (refSeq segSeq : List Nat) (t : PT
 example : acceptB ⟨[(3, 4)], true, true, false⟩ 7 5
     [(some 1, none), (some 2, some 1), (some 3, none), (some 4, some 2), (none, some 3), (some 5, none)] = true := by decide
 example : acceptB ⟨[], false, false, true⟩ 7 5 [(some 1, none), (none, none)] = false := by decide
+-- a trace with a skipped reference position (what `remove_gaps` returns) is refused
+example : writeOps ⟨[], false, false, false⟩ [0, 1, 2, 3] [0, 2, 3] [(some 0, some 0), (some 2, some 1), (some 3, some 2)]
+    = .error .valueError := by decide
 
 -- non-vacuity: the docstring example of cigar.py in small (terminal gaps, a deletion inside an intron, clipped ends)
 example : writeOps ⟨[(3, 4)], true, true, false⟩ [0, 1, 2, 3, 0, 1, 2] [3, 2, 3, 1, 1]
@@ -278,6 +326,9 @@ theorem C11_gen_writer :
 
 /-! ## progressive multiple alignment -/
 
+/-- an aligner answer used in witnesses: the ungapped alignment of two rows of width 2 -/
+def exAl0 : List Nat → List Nat → PTrace := fun _ _ => [(some 0, some 0), (some 1, some 1)]
+
 /-- `_replace_gaps` along one side of a valid global trace keeps the row's gap-stripped content. -/
 theorem C11_msa_rows (g : Nat) (row : Row) (tr : List (Option Nat)) (h : tr.filterMap id = List.range row.length) :
     ∃ r, replaceGaps g tr row = .ok r ∧ r.length = tr.length ∧ strip g r = strip g row :=
@@ -319,6 +370,65 @@ theorem C11_msa_final {al : List Nat → List Nat → PTrace} {g : Nat} {seqs : 
       res.order.Perm (List.range seqs.length) ∧ res.seqs = seqs ∧ Valid seqs.length res.trace ∧
       ∀ k (hk : k < seqs.length), covered res.trace k = List.range seqs[k].length :=
   msa_final tree hin hv hperm
+
+/-- What is required of `align_optimal`, precisely: for every inner node of the guide tree, the trace it returns for the two
+representatives is `GlobalValid` for the widths of the two sub-alignments — each side visits `0 … w−1` in order and no
+column is a double gap.  Nothing else about the aligner enters `C11_msa_invariant` / `C11_msa_final` (their other hypotheses
+are about the inputs: no input contains the gap code, the tree's leaves are a permutation).  The driver's checker
+`allValidB`, evaluated on the traces recorded from the real calls in every MSA case, *is* this hypothesis. -/
+theorem C11_msa_allvalid_checked (al : List Nat → List Nat → PTrace) (g : Nat) (seqs : List Row) (tree : GTree) :
+    (allValidB al g seqs tree = true ↔ AllValid al g seqs tree) ∧
+    (∀ tr w1 w2, globalValidB tr w1 w2 = true ↔ GlobalValid tr w1 w2) :=
+  ⟨allValidB_iff al g seqs tree, globalValidB_iff⟩
+
+/-- The guide tree: whatever the aligner returns, `_progressive_align` reports the tree's leaf list as `order` with one row
+per leaf; `as_binary` (applied to a supplied, possibly multifurcating tree) keeps the leaf list.  Hence the result contains
+every sequence exactly once iff the supplied/constructed tree does. -/
+theorem C11_tree_leaves (al : List Nat → List Nat → PTrace) (g : Nat) (seqs : List Row) :
+    (∀ (tree : GTree) (o : List Nat) (rows : List Row), progressive al g seqs tree = .ok (o, rows) →
+      o = tree.leaves ∧ rows.length = o.length) ∧
+    (∀ (m : MTree) (b : GTree), asBinary m = some b → b.leaves = m.leaves) :=
+  ⟨progressive_order al g seqs, asBinary_leaves⟩
+
+/-- …and the tree is **not validated** (multiple.pyx, known findings `C11/msa/guide-tree-not-validated/*`): a tree lacking
+sequence 2 is accepted and yields two rows for three inputs; a tree with leaf 1 twice yields a duplicated row. -/
+theorem C11_msa_tree_not_validated_defect :
+    (progressive exAl0 4 [[0, 1], [0, 1], [1, 1]] (.node (.leaf 0) (.leaf 1))).toOption.map (fun p => (p.1, p.2.length))
+      = some ([0, 1], 2) ∧
+    (progressive exAl0 4 [[0, 1], [0, 1], [1, 1]] (.node (.leaf 0) (.node (.leaf 1) (.leaf 1)))).toOption.map (fun p => p.1)
+      = some [0, 1, 1] := by decide
+
+/-- The distance `−ln((S − S_rand)/(S_max − S_rand))` on the exact (integer-scaled) model: the code's outcome in the order of
+its tests, and the formula has a value iff `S_max ≠ S_rand` and numerator and denominator have the same strict sign — for
+`S ≤ S_max` iff `S > S_rand`; the code returns a distance exactly then (when `S ≥ S_rand`). -/
+theorem C11_distance_defined (d : DistIn) :
+    ((distOutcome d = .belowRandom ↔ d.num < 0) ∧ (distOutcome d = .zeroDivision ↔ 0 ≤ d.num ∧ d.den = 0) ∧
+     (distOutcome d = .infinite ↔ d.num = 0 ∧ d.den ≠ 0) ∧ (distOutcome d = .finite ↔ 0 < d.num ∧ 0 < d.den)) ∧
+    (d.num ≤ d.den → (DistDefined d ↔ (0 < d.num ∨ d.den < 0)) ∧ (0 ≤ d.num → (DistDefined d ↔ distOutcome d = .finite))) :=
+  ⟨distOutcome_spec d, distDefined_iff d⟩
+
+/-- known finding `C11/msa/distances/ZeroDivisionError`: two identical homopolymers (`'A','A'` and `'AAAA','AAAA'` with the
+standard nucleotide matrix, match 5) have `S = S_max = S_rand`: the ratio is 0/0. -/
+theorem C11_distance_homopolymer_defect :
+    distOutcome ⟨5, 5, 5, 5, 1, 0, 0, -10, -10⟩ = .zeroDivision ∧
+    distOutcome ⟨20, 20, 20, 5 * 4 * 4, 4, 0, 0, -10, -10⟩ = .zeroDivision ∧
+    ¬ DistDefined ⟨20, 20, 20, 5 * 4 * 4, 4, 0, 0, -10, -10⟩ := by
+  refine ⟨by decide, by decide, ?_⟩
+  intro h; exact absurd h.1 (by decide)
+
+/-- known finding `C11/msa/distances/infinite-distance`: `'AAAA'` vs `'AAA'` (match 5, gap −10, one terminal gap): `S = 5 =
+S_rand = 60/4 − 10` while `S_max = 17.5`: the argument of `ln` is 0. -/
+theorem C11_distance_infinite_defect :
+    distOutcome ⟨5, 20, 15, 5 * 4 * 3, 4, 1, 0, -10, -10⟩ = .infinite ∧
+    ¬ DistDefined ⟨5, 20, 15, 5 * 4 * 3, 4, 1, 0, -10, -10⟩ := by
+  refine ⟨by decide, ?_⟩
+  rintro ⟨_, h | h⟩
+  · exact absurd h.1 (by decide)
+  · exact absurd h.1 (by decide)
+
+example : distOutcome ⟨10, 20, 15, 5 * 4 * 3, 4, 1, 0, -10, -10⟩ = .finite := by decide
+example : asBinary (.node [.leaf 0, .node [.leaf 1], .leaf 2, .leaf 3]) =
+    some (.node (.node (.node (.leaf 0) (.leaf 1)) (.leaf 2)) (.leaf 3)) := by decide
 
 -- non-vacuity: two sequences, one merge
 example : GlobalValid [(some 0, some 0), (some 1, none), (some 2, some 1)] 3 2 := by
